@@ -7,7 +7,7 @@
   run [N] [scale]           run the quick tier of the checks mapped to the mutated file against N survivors
                             (4 at a time, VERIF_JOBS=4, VERIF_SCALE=scale, stop at the first check that reports a
                             violation) -> WORK/results.jsonl
-  rerun                     re-run at full scale the survivors no check caught
+  rerun [file]              re-run at full scale the survivors no check caught (or the records listed in file)
   report                    table per file / operator
 
 Everything happens in scratch copies under /var/tmp (VERIF_REPO, VERIF_OUT); /repo and /verif/evidence are not touched.
@@ -250,6 +250,8 @@ def main():
             done = {key(m) for m in load("results_full.jsonl")}
             caught = {key(m) for m in load("results.jsonl") if m["caught_by"]}
             pool = [m for m in load("results.jsonl") if not m["caught_by"] and key(m) not in done and key(m) not in caught]
+            if len(sys.argv) > 2:       # a hand-picked subset (one JSON record per line) instead of every uncaught mutant
+                pool = [m for m in (json.loads(l) for l in open(sys.argv[2])) if key(m) not in done]
             outname = "results_full.jsonl"
         par = int(os.environ.get("MUT_PAR", "4"))
         jobs = int(os.environ.get("MUT_JOBS", "4"))
